@@ -4,6 +4,7 @@ package main
 
 import (
 	"bufio"
+	"fmt"
 	"io"
 	"strconv"
 	"strings"
@@ -61,12 +62,18 @@ func init() {
 			}
 		}
 		rd := bufio.NewReader(&vChunkReader{data: data, cuts: cuts})
-		var out []string
+		// as in the real receive loop, decoded messages are only QUEUED while the loop keeps reading from
+		// the same reader; they are serialised later (by the proxy's message loop)
+		var queued []*Message
 		for {
 			m, err := ParseMessage(rd)
 			if err != nil {
 				break
 			}
+			queued = append(queued, m)
+		}
+		var out []string
+		for _, m := range queued {
 			b, _ := m.Bytes()
 			out = append(out, hxb(b))
 		}
@@ -76,21 +83,22 @@ func init() {
 	// the REAL parse loop of UDPServerTransport (startParseMessage) is fed one (buffer, n) pair.
 	vReg("udpbuf run", func(a []string) string {
 		if vUDPTrans == nil {
-			vUDPTrans = &UDPServerTransport{msgParseChannel: make(chan SizedByteArray, 16), msgBufPool: NewByteArrayPool(4, 64*1024)}
+			vUDPTrans = &UDPServerTransport{msgParseChannel: make(chan SizedByteArray, 16), msgBufPool: NewByteArrayPool(1<<20, 64*1024)}
 			go vUDPTrans.startParseMessage()
 		}
 		n, _ := strconv.Atoi(a[0])
 		content := []byte(unhx(a[1]))
 		buf := make([]byte, 64*1024)
 		copy(buf, content)
-		res := "rejected"
+		pool0 := vUDPTrans.msgBufPool.Size()
+		var queued *Message
 		done := make(chan bool, 1)
-		vUDPTrans.msgParseChannel <- SizedByteArray{b: buf, n: n, msgHandler: func(m *Message) {
-			b, _ := m.Bytes()
-			res = "ok " + hxb(b)
-		}}
+		// as in the real transport the handler only queues the message; it is serialised after later
+		// datagrams have been received and parsed
+		vUDPTrans.msgParseChannel <- SizedByteArray{b: buf, n: n, msgHandler: func(m *Message) { queued = m }}
 		// sentinel through the same FIFO: when its handler runs, the case before it is finished
-		sent := []byte("OPTIONS sip:s SIP/2.0\r\nContent-Length: 0\r\n\r\n")
+		// (a long sentinel: whatever the next datagram is, it must not be able to reach into this one)
+		sent := []byte("OPTIONS sip:s SIP/2.0\r\nContent-Length: 20000\r\n\r\n" + strings.Repeat("S", 20000))
 		sb := make([]byte, 64*1024)
 		copy(sb, sent)
 		vUDPTrans.msgParseChannel <- SizedByteArray{b: sb, n: len(sent), msgHandler: func(m *Message) { done <- true }}
@@ -99,6 +107,16 @@ func init() {
 		case <-time.After(5 * time.Second):
 			return "stalled"
 		}
-		return res
+		// the loop gives every buffer back exactly once: two datagrams were handled (case + sentinel)
+		pool := fmt.Sprintf(" pool+%d", vUDPTrans.msgBufPool.Size()-pool0)
+		// scribble over the buffer the datagram arrived in (it is back in the pool and will be reused)
+		for i := range buf {
+			buf[i] = 'Z'
+		}
+		if queued == nil {
+			return "rejected" + pool
+		}
+		b, _ := queued.Bytes()
+		return "ok " + hxb(b) + pool
 	})
 }
